@@ -180,7 +180,7 @@ pub fn run(ctx: &Ctx) -> (Stats, Report) {
     let s = pt_run(
         "C12/addsub",
         seed,
-        (if ctx.thorough { 400_000_000 } else { 4_000_000 }) / THREADS as u32,
+        (if ctx.thorough { 400_000_000 } else { 24_000_000 }) / THREADS as u32,
         THREADS,
         || (strat::raw(Kind::Time), strat::raw(Kind::DT), proptest::bool::ANY),
         |(t, iv, sub): &(i128, i128, bool), st: &mut Stats| {
